@@ -99,7 +99,9 @@ def gen_scenario(rng):
             if r < 0.45 or r >= 0.8:
                 cfg["state"]["hold"] = rng.choice([0.45, 1.45, 2.95])
             if r >= 0.45:
-                cfg["state"]["hold_false"] = rng.choice([0, 0.4, 0.9, 1.6])
+                # 0 and 0.0 are "set" (the expression has to be seen false first), distinct from None
+                cfg["state"]["hold_false"] = rng.choice([0, 0.0, 0, 0.4, 0.9, 1.6])
+                cfg["state"]["check_now"] = rng.choice([None, True, False, False])
             cfg["state"]["fn"] = [rng.choice(["ge", "gt"]), 3]
             cfg["state"]["parse_ok"] = rng.random() < 0.97
     if rng.random() < 0.4:
@@ -189,6 +191,12 @@ WITNESSES += [
        [[1.25, ["s", 5]], [1.75, ["s", 0]], [2.25, ["s", 5]], [2.75, ["s", 1]], [3.25, ["s", 6]]], v_init=0),
     _w({"state": _st(["ge", 3], hold=0.45, hold_false=0.4)},
        [[1.25, ["s", 5]], [1.75, ["s", 0]], [2.75, ["s", 6]], [3.25, ["s", 7]]], v_init=1),
+    # state_hold_false = 0 / 0.0 is "set": false at the call, the first change to true ends the wait (seed C15_5)
+    _w({"state": _st(["ge", 3], check_now=False, hold_false=0), "timeout": 2.5}, [[1.25, ["s", 5]], [1.75, ["s", 0]]], v_init=1),
+    _w({"state": _st(["ge", 3], check_now=False, hold_false=0.0)}, [[1.75, ["s", 6]]], v_init=0),
+    _w({"state": _st(["ge", 3], check_now=False, hold_false=0), "timeout": 4},
+       [[1.25, ["s", 6]], [1.75, ["s", 0]], [2.25, ["s", 5]]], v_init=5),
+    _w({"state": _st(["ge", 3], hold_false=0, hold=0.45)}, [[1.25, ["s", 5]]], v_init=0),
 ]
 
 
